@@ -22,6 +22,11 @@ func Strings(before, after string) []Edit {
 		// TODO(adonovan): opt: specialize diffASCII for strings.
 		return diffASCII([]byte(before), []byte(after))
 	}
+	if !utf8.ValidString(before) || !utf8.ValidString(after) {
+		// []rune would replace each invalid byte by U+FFFD and shift all
+		// following offsets: diff invalid UTF-8 bytewise instead.
+		return diffASCII([]byte(before), []byte(after))
+	}
 	return diffRunes([]rune(before), []rune(after))
 }
 
@@ -33,6 +38,10 @@ func Bytes(before, after []byte) []Edit {
 	}
 
 	if isASCIIByte(before) && isASCIIByte(after) {
+		return diffASCII(before, after)
+	}
+	if !utf8.Valid(before) || !utf8.Valid(after) {
+		// see Strings: invalid UTF-8 is diffed bytewise
 		return diffASCII(before, after)
 	}
 	return diffRunes(runes(before), runes(after))
